@@ -220,7 +220,7 @@ theorem parseDeclarations_variables (env : Env) (hnf : env.faultAt = none) (F D 
         exact ⟨by rw [ho]; decide, by rw [ho]; decide, by rw [ho]; decide, hopsv o (by simp [hops'])⟩
     obtain ⟨hstop, hlt, hdc, hauto⟩ := hheadTy
     obtain ⟨w1, t1, hi1, hs1, ht1, hty1, hv1⟩ := parseType_plain env F D true tok pairs w b0 bnx _ hty hpv hnc hall hy0 hnx
-      hstop hlt hdc (by omega)
+      (typeStop_end hstop) hlt hdc (by omega)
     obtain ⟨w2, t2, hi2, hs2, ht2, hty2, hv2⟩ := step_tokenIfP_miss env (fun t => ["auto"].contains t.value) w1 t1 bnx ht1
       (by intro c _ hcv; show ["auto"].contains c.value = false; rw [hcv, hv1]; simp [hauto])
     have hsl2 : SameButLog w w2 := hs1.trans hs2.butLog
